@@ -27,7 +27,8 @@ open WfModel WfModel.Scheme WfModel.Codec
 
 def parseName (s : String) : Option Name := do
   let bs ← hexDecode s
-  if bs.all (fun b => b.toNat < 128) then some (bs.map fun b => Char.ofNat b.toNat) else none
+  if bs.all (fun b => b.toNat < 128) then some (bs.map fun b => Char.ofNat b.toNat)
+  else (String.fromUTF8? (ByteArray.mk bs.toArray)).map (·.toList)
 
 def nameHex (n : Name) : String := hexEncode (n.map fun c => UInt8.ofNat c.toNat)
 
@@ -53,6 +54,7 @@ def outStr : ParseOut → String
   | .err => "e"
   | .okField i => s!"f{i}"
   | .okFunction i => s!"u{i}"
+  | .okOther => "ok?"
 
 def optNat : Option Nat → String
   | some i => toString i
